@@ -179,6 +179,8 @@ Proof.
     + destruct (closed s); inversion H; subst; exact HI.
     + inversion H; subst. unfold Inv, nwaiting, nwoken, items in *. cbn. intros Hp.
       destruct (HI Hp) as [Hcl Hle]. split; [exact Hcl|]. rewrite Er in Hle. rewrite app_length in *. cbn in Hle. lia.
+  - (* LTryClear *)
+    destruct (negb (is_mq (knd c))); [discriminate|]. inversion H; subst. exact HI.
 Qed.
 
 Lemma init_inv c : Inv (init c).
@@ -261,6 +263,7 @@ Proof.
   - destruct (negb (is_mq (knd c))); [discriminate|]. destruct (closed s); [inversion H; subst; auto|].
     destruct (ctrl s); [destruct (req s)|]; inversion H; subst; auto. right. left. apply getc_wake.
   - destruct (negb (is_sync (knd c))); [discriminate|]. destruct (req s); [destruct (closed s)|]; inversion H; subst; auto.
+  - destruct (negb (is_mq (knd c))); [discriminate|]. inversion H; subst; auto.
 Qed.
 
 Lemma step_closed_stays c s l s' o : step c s l = Some (s', o) -> closed s = true -> closed s' = true.
@@ -276,6 +279,7 @@ Proof.
   - inversion H; subst; auto.
   - destruct (negb (is_mq (knd c))); [discriminate|]. inversion H; subst; auto.
   - destruct (negb (is_sync (knd c))); [discriminate|]. destruct (req s); inversion H; subst; auto.
+  - destruct (negb (is_mq (knd c))); [discriminate|]. inversion H; subst; auto.
 Qed.
 
 (* on a closed queue one pass of the loop always returns *)
